@@ -67,9 +67,9 @@ def runs(W, p):
     # repeated encodings written once and referred to by alias (ordinary YAML)
     y2 += ["output:", f"    filename: {outs['y2']}", f"    output_period: {DT}", "    instance_variables:",
            f"        pid: {{encoding: {{datatype: i4}}, attributes: {{long_name: {lname['pid']}}}}}",
-           f"        X: {{encoding: &float32 {{datatype: f4}}, attributes: {{long_name: {lname['X']}}}}}",
-           f"        Y: {{encoding: *float32, attributes: {{long_name: {lname['Y']}}}}}",
-           f"        Z: {{encoding: *float32, attributes: {{long_name: {lname['Z']}}}}}",
+           f"        X: {{encoding: &float64 {{datatype: f8}}, attributes: {{long_name: {lname['X']}}}}}",
+           f"        Y: {{encoding: *float64, attributes: {{long_name: {lname['Y']}}}}}",
+           f"        Z: {{encoding: &float32 {{datatype: f4}}, attributes: {{long_name: {lname['Z']}}}}}",
            "    particle_variables:",
            f"        w0: {{encoding: *float32, attributes: {{long_name: {lname['w0']}}}}}"]
 
@@ -85,7 +85,7 @@ def runs(W, p):
         t2 += ["continuous = true", f"release_frequency = {2 * DT}"]
     t2 += ["[output]", f"filename = {tq(outs['t2'])}", f"output_period = {DT}", "[output.instance_variables]",
            f'pid = {{encoding = {{datatype = "i4"}}, attributes = {{long_name = {tq(lname["pid"])}}}}}']
-    t2 += [f'{v} = {{encoding = {{datatype = "f4"}}, attributes = {{long_name = {tq(lname[v])}}}}}' for v in ("X", "Y", "Z")]
+    t2 += [f'{v} = {{encoding = {{datatype = "{"f4" if v == "Z" else "f8"}"}}, attributes = {{long_name = {tq(lname[v])}}}}}' for v in ("X", "Y", "Z")]
     t2 += ["[output.particle_variables]", f'w0 = {{encoding = {{datatype = "f4"}}, attributes = {{long_name = {tq(lname["w0"])}}}}}']
     y1 = ["time_control:", f"    start_time: {start}", f"    stop_time: {stop}",
           "files:", f"    particle_release_file: {tmp / 'rel.rls'}", f"    output_file: {outs['y1']}",
@@ -95,7 +95,7 @@ def runs(W, p):
         y1 += ["    release_type: continuous", f"    release_frequency: {2 * DT}"]
     y1 += ["output_variables:", f"    outper: {DT}", "    instance: [pid, X, Y, Z]", "    particle: [w0]",
            f"    pid: {{ncformat: i4, long_name: {lname['pid']}}}"]
-    y1 += [f"    {v}: {{ncformat: f4, long_name: {lname[v]}}}" for v in ("X", "Y", "Z", "w0")]
+    y1 += [f"    {v}: {{ncformat: {'f8' if v in ('X', 'Y') else 'f4'}, long_name: {lname[v]}}}" for v in ("X", "Y", "Z", "w0")]
     y1 += ["numerics:", f"    dt: {DT}", "    advection: EF", "    diffusion: 0"]
     (tmp / "y2" / "conf.yaml").write_text("\n".join(y2) + "\n")
     (tmp / "t2" / "conf.toml").write_text("\n".join(t2) + "\n")
